@@ -8,6 +8,6 @@ mkdir -p gen
   ls theories/*.v; ls gen/*.v 2>/dev/null || true
 } > _CoqProject
 coq_makefile -f _CoqProject -o Makefile.coq >/dev/null 2>&1
-timeout 2700 make -f Makefile.coq -j16 2>&1 | grep -v '^COQDEP\|^COQC\|^CoqMakefile' || true
+timeout 2700 make -k -f Makefile.coq -j16 2>&1 | grep -v '^COQDEP\|^COQC\|^CoqMakefile' || true
 # make's status (pipefail not set on purpose above): re-run quickly for the status
-timeout 2700 make -f Makefile.coq -j16 >/dev/null 2>&1
+timeout 2700 make -k -f Makefile.coq -j16 >/dev/null 2>&1
